@@ -112,6 +112,34 @@ fn check(case: &Case) -> Outcome {
             ensure!(dist_bytes(&lo) == want_lo && dist_bytes(&hi) == want_hi, "C40:bucket-range-wrong",
                 json!({"index": i, "lo": hex(&dist_bytes(&lo)), "hi": hex(&dist_bytes(&hi))}));
             ensure!(lo <= d_ab && d_ab <= hi && contains && n == 1, "C40:distance-outside-bucket-range", ctx());
+            // membership of *other* distances in this bucket: exactly those whose highest set bit is i
+            // (probes: the case's other distances, 0, the range ends and their outer neighbours, and
+            // d(a,b) with a higher bit set in addition = bit i set but not the highest)
+            let mut probes: Vec<B32> = vec![dbc, dac, [0u8; 32], want_lo, want_hi, pow2m1(i), pow2(i + 1)];
+            for up in [i + 1, i + 9, 255] {
+                if up > i && up < 256 {
+                    let mut p = dab;
+                    let hi_bit = pow2(up);
+                    for x in 0..32 {
+                        p[x] |= hi_bit[x];
+                    }
+                    probes.push(p);
+                }
+            }
+            for p in &probes {
+                let want = high_bit(p) == Some(i);
+                let got = t.bucket_contains(&kb, &dist_from(p)).expect("not local");
+                ensure!(got == want, "C40:bucket-membership-not-highest-bit", json!({"bucket": i, "probe": hex(p), "probe_high_bit": high_bit(p), "contains": got}));
+                if !want && bit(p, i) {
+                    labels.push("probe:bucket-bit-set-below-a-higher-bit");
+                } else if !want {
+                    labels.push("probe:outside-bucket");
+                } else {
+                    labels.push("probe:inside-bucket");
+                }
+            }
+            labels.sort();
+            labels.dedup();
             if i == 0 {
                 labels.push("bucket:0");
             } else if i == 255 {
